@@ -2,5 +2,8 @@ SPECIFICATION Spec
 CONSTANTS
   GClasses = {1, 255}
   Pairs = FALSE
+  TlvMaxItems = 2
+  TlvLens = {0, 1, 5}
+  TlvDeltas <- MC_TlvDeltas
 INVARIANT Emit
 CHECK_DEADLOCK FALSE
